@@ -59,8 +59,24 @@ def sym(name, positive=False):
     return Rat(Poly.atom(name))
 
 
+LONG_TEXT = 600
+LONG_NAMES = {}  # "<expr#digest>" -> full canonical text (diagnostics)
+
+
+def short(text):
+    """Canonical texts beyond LONG_TEXT characters are interned under a digest: atom names stay small (names are compared and
+    concatenated all the time), identity of text <-> identity of digest is kept."""
+    if len(text) <= LONG_TEXT:
+        return text
+    import hashlib
+
+    key = f"<expr#{hashlib.sha1(text.encode()).hexdigest()[:14]}>"
+    LONG_NAMES.setdefault(key, text)
+    return key
+
+
 def opaque(callee, args=(), positive=False):
-    name = f"{callee}({', '.join(canon(a) for a in args)})"
+    name = f"{callee}({', '.join(short(canon(a)) for a in args)})"
     if name not in ATOMS:
         ATOMS[name] = AtomDef(name, "opaque", positive=positive, payload=(callee, tuple(args)))
     return Rat(Poly.atom(name))
@@ -406,7 +422,7 @@ class Rat:
         todo = None
         for m in self.n.t:
             for a, p in m:
-                if p >= 2 and ATOMS.get(a) is not None and ATOMS[a].kind == "sqrt":
+                if p >= 2 and ATOMS.get(a) is not None and ATOMS[a].kind == "sqrt" and ATOMS[a].payload != "nested":
                     todo = a
                     break
             if todo:
@@ -682,9 +698,13 @@ def fn_sqrt(u):
             rc = fn_sqrt(Rat.const(c))
             if rc.const_value() is not None:
                 return Rat(Poly({tuple((a, p // 2) for a, p in m): (rc.const_value(), abs(rc.const_value()))}))
-    name = f"sqrt({u.canon()})"
+    u = u._sqrt_norm()
+    name = f"sqrt({short(u.canon())})"
     if name not in ATOMS:
-        ATOMS[name] = AtomDef(name, "sqrt", u, positive=True)
+        # a radical of radicals is kept as one opaque positive quantity: re-expanding sqrt(u)^2 -> u for nested u makes
+        # normal forms explode (xi(xi(x)) ...) and no decided identity needs denesting
+        nested = any(ATOMS.get(a) is not None and ATOMS[a].kind == "sqrt" for a in u.atoms())
+        ATOMS[name] = AtomDef(name, "sqrt", u, positive=True, payload="nested" if nested else None)
     return Rat(Poly.atom(name))
 
 
